@@ -7,7 +7,7 @@ from .. import gen, refbucket, runner, sut
 from .. import model as M
 
 ID = "C03"
-RULE = ("Weight vectors (1-64 groups, ints and decimals 1e-9..1e9 as source text, zeros anywhere, never all zero; "
+RULE = ("Weight vectors (1-64 groups, ints and decimals 1e-9..1e9 as source text, zeros anywhere, never all zero, labels unique or repeated across slices (incl. 1 vs 1.0); "
         "plus every vector over {0,1,2,3} of length<=4) evaluated at grid points k in {0, 2^32-1, ceil(boundary)+{-2..2}, "
         "random}. Path A substitutes the hash position from outside (with a canary) and calls both deterministic_choice "
         "and a compiled single-return experiment; path B locates the grid point of real unit ids black-box by bisection "
@@ -76,7 +76,7 @@ def _nontrivial(ws, k):
 def judge_a(case):
     """case: {"ws": [...], "ks": [...], "via": "direct"|"dsl"|"cum"}"""
     ws = case["ws"]
-    labels = _labels(len(ws))
+    labels = [M.dec(x) for x in case["labels"]] if case.get("labels") else _labels(len(ws))
     viol = []
     tags = ["pathA:" + case["via"], "groups:%s" % ("1" if len(ws) == 1 else "2-8" if len(ws) <= 8 else "9-64")]
     if any(float(w) == 0 for w in ws):
@@ -86,11 +86,13 @@ def judge_a(case):
     nt = False
     ev = None
     if case["via"] == "dsl":
-        prog = M.program("e", M.ret([(M.lit_str(l), w) for l, w in zip(labels, ws)]), splitters=["uid"])
+        prog = M.program("e", M.ret([(M.lit_of(l), w) for l, w in zip(labels, ws)]), splitters=["uid"])
         res = sut.compile_text(M.render(prog))
         if res[0] != "ok":
             return {"viol": ["does not compile: %s %s | %s" % (res[1], res[2], M.render(prog))], "tags": tags}
         ev = res[1]
+    if case.get("labels"):
+        tags.append("repeated-labels")
     nums = [float(w) if "." in w else int(w) for w in ws]
     for k in case["ks"]:
         idx, ok, zone = refbucket.select(ws, k)
@@ -106,17 +108,94 @@ def judge_a(case):
                 viol.append("raised %s: %s for weights %r at k=%d" % (type(e).__name__, e, ws, k))
                 continue
         if sub.calls != 1:
+            # the substituted position was not consulted (exactly once): path A cannot judge this call.  Fall back to real
+            # unit ids whose grid point was located black-box (path B machinery), so the vector is still decided.
             UNAVAILABLE["flag"] = True
-            return {"viol": [], "tags": ["pathA-unavailable(canary)"], "skipped": "pathA-canary"}
+            return _judge_with_located_ids(case, labels, tags)
         if zone:
             tags.append("ambiguity-zone")
         if _nontrivial(ws, k):
             nt = True
-        if got not in [labels[i] for i in ok]:
+        if not any(sut.same_value(got, labels[i]) for i in ok):
             viol.append("weights %r at grid point %d (u=%r): partition selects index %s (%s), implementation returned %r"
                         % (ws, k, k / GRID, sorted(ok), "exact" if not zone else "zone", got))
     return {"viol": viol, "nontrivial": nt, "tags": sorted(set(tags)), "key": [ws, case["ks"], case["via"]],
             "sample": {"weights": ws[:12], "grid_points": case["ks"][:8], "via": case["via"]}}
+
+
+_LOCATED = []
+
+
+def _located_ids():
+    if not _LOCATED:
+        for uid in FROZEN_IDS + ["u-1", "u-2", 12345, "customer-77", 3.5]:
+            k, problem = locate(uid, None)
+            if problem is None:
+                _LOCATED.append((uid, k))
+    return _LOCATED
+
+
+_LOCATED_DIRECT = []
+
+
+def _locate_direct(key):
+    """grid point of an id string for the public choice function itself, located with float two-group ramps"""
+    dc = sut.binning().deterministic_choice
+
+    def in_lo(j):
+        return dc(key, ["lo", "hi"], weights=[j / 8.0, (GRID - j) / 8.0]) == "lo"
+    if in_lo(0) or not in_lo(GRID):
+        return None
+    lo, hi = 0, GRID
+    while hi - lo > 1:
+        mid = (lo + hi) // 2
+        if in_lo(mid):
+            hi = mid
+        else:
+            lo = mid
+    return hi - 1
+
+
+def _located_direct():
+    if not _LOCATED_DIRECT:
+        for key in FROZEN_IDS + ["u-1", "u-2", "12345", "customer-77", "", "é"]:
+            k = _locate_direct(key)
+            if k is not None:
+                _LOCATED_DIRECT.append((key, k))
+    return _LOCATED_DIRECT
+
+
+def _judge_with_located_ids(case, labels, tags):
+    ws = case["ws"]
+    viol = []
+    direct = case["via"] != "dsl"
+    if direct:
+        nums = [float(w) if "." in w else int(w) for w in ws]
+        dc = sut.binning().deterministic_choice
+        pairs = _located_direct()
+    else:
+        prog = M.program("e", M.ret([(M.lit_of(l), w) for l, w in zip(labels, ws)]), splitters=["uid"])
+        res = sut.compile_text(M.render(prog))
+        if res[0] != "ok":
+            return {"viol": ["does not compile: %s %s | %s" % (res[1], res[2], M.render(prog))], "tags": tags}
+        pairs = _located_ids()
+    for uid, k in pairs:
+        idx, ok, zone = refbucket.select(ws, k)
+        if direct:
+            try:
+                if case["via"] == "cum":
+                    act = ("group", dc(uid, labels, cum_weights=list(itertools.accumulate(nums))))
+                else:
+                    act = ("group", dc(uid, labels, weights=nums))
+            except Exception as e:
+                act = ("error", type(e).__name__, str(e))
+        else:
+            act = sut.call(res[1], {"uid": uid})
+        if act[0] != "group" or not any(sut.same_value(act[1], labels[i]) for i in ok):
+            viol.append("weights %r: unit %r was located (black-box, two-group ramps) at grid point %d where the partition selects "
+                        "index %s, evaluator gave %r" % (ws, uid, k, sorted(ok), act[1:]))
+    return {"viol": viol[:3], "nontrivial": len([w for w in ws if float(w) > 0]) >= 2, "tags": tags + ["pathA-canary->located-ids"],
+            "key": [ws, "located"], "sample": {"weights": ws[:12], "via": "located real ids (path A canary tripped)"}}
 
 
 # --------------------------------------------------------------------------- path B
@@ -233,14 +312,20 @@ def judge_case(record):
 @st.composite
 def cases_a(draw):
     n = draw(st.one_of(st.integers(1, 8), st.integers(1, 64)))
-    kind = draw(st.sampled_from(["wide", "wide", "nice"]))
+    kind = draw(st.sampled_from(["wide", "wide", "nice", "ints"]))
     ws = draw(gen.weight_vector(n, kind))
     extra = draw(st.lists(st.integers(0, GRID - 1), min_size=1, max_size=4))
     ks = _positions(ws, extra)
     if len(ks) > 40:
         idxs = draw(st.lists(st.integers(0, len(ks) - 1), min_size=30, max_size=30))
         ks = sorted({ks[i] for i in idxs} | {0, GRID - 1})
-    return {"ws": ws, "ks": ks, "via": draw(st.sampled_from(["direct", "dsl", "dsl", "cum"]))}
+    case = {"ws": ws, "ks": ks, "via": draw(st.sampled_from(["direct", "dsl", "dsl", "cum"]))}
+    if n >= 2 and draw(st.integers(0, 3)) == 0:
+        # the same label on several slices (its share is the sum of its slices, each slice stays where it was declared),
+        # incl. labels that are ==-equal but of different type (1 and 1.0)
+        pool = draw(st.sampled_from([["A", "B"], ["A", "B", "C"], [1, 1.0, "1"], ["x", 0, 0.0], ["A"]]))
+        case["labels"] = [M.enc(draw(st.sampled_from(pool))) for _ in range(n)]
+    return case
 
 
 FROZEN_IDS = ["unit-3373044025", "unit-5155129577", "unit-7940567911"]
@@ -252,7 +337,7 @@ def cases_b(draw):
                          st.text(alphabet="abcdefghijklmnopqrstuvwxyz0123456789-", min_size=1, max_size=12),
                          st.floats(allow_nan=False, allow_infinity=False, width=32)))
     salt = draw(st.sampled_from([None, None, "s1", ""]))
-    vectors = [draw(gen.weight_vector(draw(st.integers(2, 12)), draw(st.sampled_from(["wide", "nice"]))))
+    vectors = [draw(gen.weight_vector(draw(st.integers(2, 12)), draw(st.sampled_from(["wide", "nice", "ints", "ints"]))))
                for _ in range(draw(st.integers(1, 3)))]
     return {"uid": M.enc(uid), "salt": salt, "vectors": vectors,
             "probe_js": draw(st.lists(st.integers(0, GRID), min_size=1, max_size=3))}
@@ -269,6 +354,13 @@ def small_vectors():
                 yield {"ws": ws, "ks": _positions(ws, []), "via": "dsl"}
 
 
+def repeated_label_vectors():
+    for ws, labels in [(["1", "1", "1"], ["A", "B", "A"]), (["2", "1", "1", "2"], ["c", "t", "h", "t"]), (["1", "1"], [1, 1.0]),
+                       (["1", "2", "3"], ["A", "A", "B"]), (["1", "0", "1"], ["A", "B", "A"]), (["0.5", "1.5", "0.5"], [0, "z", 0.0])]:
+        for via in ("direct", "dsl"):
+            yield {"ws": ws, "ks": _positions(ws, [7, GRID // 2, GRID // 3, GRID - 5]), "via": via, "labels": [M.enc(l) for l in labels]}
+
+
 def selftest():
     refbucket.selftest()
     assert _ramp_text(5, 4) == "0.3125" and _ramp_text(1 << 33, 4) == "536870912.0000"
@@ -278,6 +370,9 @@ def selftest():
 def run(ctx, rec):
     if ctx.shard == 0:
         runner.direct_run(ctx, rec, "small-vectors", small_vectors(), judge_a)
+        if rec.violations:
+            return
+        runner.direct_run(ctx, rec, "repeated-labels", repeated_label_vectors(), judge_a)
         if rec.violations:
             return
         frozen = [{"uid": M.enc(u), "salt": None, "vectors": [["1", "1"], ["0", "1", "2.5"], ["3", "0", "0", "1"]],
